@@ -72,6 +72,7 @@ type PkgSpec struct {
 	DocText []string   `json:"doc_text,omitempty"`
 	Files   []*SrcFile `json:"files"`
 	Anchor  string     `json:"anchor"` // an exported struct type other packages refer to
+	InSub   bool       `json:"in_sub,omitempty"`
 }
 
 // ModuleSpec describes a synthetic module.
@@ -80,14 +81,39 @@ type ModuleSpec struct {
 	GoVer   string     `json:"go"`
 	Pkgs    []*PkgSpec `json:"pkgs"`
 	Pre     []PreFile  `json:"pre,omitempty"`
+	// Sub: a second module in a subdirectory, required and replaced by the main one, so that one run
+	// can span two modules with different module paths and go versions.
+	Sub *SubModule `json:"sub,omitempty"`
+}
+
+// SubModule is a locally replaced second module.
+type SubModule struct {
+	Dir   string `json:"dir"`
+	Path  string `json:"path"`
+	GoVer string `json:"go"`
+}
+
+// ModuleOf returns the module path and go version that govern package i.
+func (m *ModuleSpec) ModuleOf(i int) (string, string) {
+	if m.Sub != nil && m.Pkgs[i].InSub {
+		return m.Sub.Path, m.Sub.GoVer
+	}
+	return m.ModPath, m.GoVer
 }
 
 // ImportPath of package i.
 func (m *ModuleSpec) ImportPath(i int) string {
-	if m.Pkgs[i].Dir == "" {
+	p := m.Pkgs[i]
+	if m.Sub != nil && p.InSub {
+		if p.Dir == m.Sub.Dir {
+			return m.Sub.Path
+		}
+		return m.Sub.Path + "/" + strings.TrimPrefix(p.Dir, m.Sub.Dir+"/")
+	}
+	if p.Dir == "" {
 		return m.ModPath
 	}
-	return m.ModPath + "/" + m.Pkgs[i].Dir
+	return m.ModPath + "/" + p.Dir
 }
 
 // PkgByPath returns the index of the package with this import path, or -1.
@@ -309,7 +335,10 @@ var stdUse = map[string]string{
 func (m *ModuleSpec) Files() (files map[string]string, links map[string]string) {
 	files = map[string]string{}
 	links = map[string]string{}
-	files["go.mod"] = "module " + m.ModPath + "\n\ngo " + m.GoVer + "\n"
+	files["go.mod"] = m.GoMod()
+	if m.Sub != nil {
+		files[filepath.Join(m.Sub.Dir, "go.mod")] = "module " + m.Sub.Path + "\n\ngo " + m.Sub.GoVer + "\n"
+	}
 	for pi, p := range m.Pkgs {
 		for fi, f := range p.Files {
 			files[filepath.Join(p.Dir, f.Name)] = m.FileSource(pi, f, fi == 0)
@@ -323,6 +352,15 @@ func (m *ModuleSpec) Files() (files map[string]string, links map[string]string) 
 		}
 	}
 	return
+}
+
+// GoMod renders the main go.mod.
+func (m *ModuleSpec) GoMod() string {
+	s := "module " + m.ModPath + "\n\ngo " + m.GoVer + "\n"
+	if m.Sub != nil {
+		s += "\nrequire " + m.Sub.Path + " v0.0.0\n\nreplace " + m.Sub.Path + " => ./" + m.Sub.Dir + "\n"
+	}
+	return s
 }
 
 // Materialise writes the module below root.
